@@ -20,6 +20,12 @@ Oracle
              mask; the rest of the stream plus valid packets up to 1.1 MiB are delivered: the
              receiver must have called loseConnection and its service must have received exactly
              the packets sent before the altered one.
+  re-key   : the payload sequence continues across one or two further KEXINIT exchanges started by
+             either side or both at once, switching to another cipher / MAC / compression (also the
+             `none` cipher and MAC, which a subclass may enable); packets sent while the exchange is in
+             progress are queued by the transport and must come out in call order; the peer service may
+             send packets from inside its packetReceived callback (re-entrant application).  Same
+             delivery oracle.  In 25 % of these sessions IGNORE/DEBUG are also sent during the exchange.
 False-alarm guards: nothing is asserted about wire bytes (random padding, compression); banner lines
 never start with "SSH-"; the identification region (banners + version line) is kept <= 4000 bytes
 (the documented 4 KiB guard); messages use numbers 50..255 only after both services are started;
@@ -35,6 +41,9 @@ failing side called loseConnection; everything else keeps `delivery-*` / `tamper
       complete banner line contains "SSH-" in its middle (legal: it must only not *begin* with it),
       and the side disconnected with PROTOCOL_VERSION_NOT_SUPPORTED or PROTOCOL_ERROR (it took the
       partial line for the version line).
+  `ssh-rekey-control-message-after-own-newkeys-uses-old-keys` - a re-key session fails and the harness
+      had called sendIgnore/sendDebug on a side whose own NEWKEYS was out while the peer's had not
+      arrived (the message goes out under the old keys; RFC 4253 7.3).
   `ssh-version-guard-counts-bytes-after-version-line` - the bytes delivered so far contain a
       complete version line within the first 4096 bytes, more than 4096 bytes had been delivered in
       that same segment, and the side sent DISCONNECT reason CONNECTION_LOST (the 4 KiB version guard
@@ -52,19 +61,23 @@ RULE = ("configurations = offered ciphers x MACs x compressions (10 per seed on 
         "thorough), kex algorithm and host key type rotating; per configuration: delivery sessions (random "
         "payload sequences 0..70 KiB both ways, 0-3 banner lines, whole / <=97-byte / tiny segmentations), "
         "tamper sessions (random packet, offset class, mask) and for two configurations every offset of one "
-        "packet; identification sessions: every 1-cut of banner+version region.  A case is distinct by "
+        "packet; identification sessions: every 1-cut of banner+version region; re-key sessions: 1-2 further key "
+        "exchanges (initiator c/s/both, target configuration incl. none cipher/MAC) with packets queued during "
+        "the exchange and a peer that sends from inside packetReceived.  A case is distinct by "
         "(configuration, kex, family, payload sizes, banner, segmentation / tamper offset).")
 ASSUMPTIONS = ["trusted base: vf.engines.netsim.SimTransport (byte queues, loseConnection flag)",
                "key exchange randomness comes from the OS (cipher text differs between runs; the logical case - configuration, payloads, segmentation, tamper offset - is reproducible from the seed)",
                "one transport.write() per SSH packet is used only to locate the packet to tamper with"]
 SHARDS = {"quick": 4, "thorough": 16}
-FLOORS = {"sessions_established": 100, "payloads_compared": 500, "tamper_sessions": 50, "tamper_disconnects_observed": 50,
+FLOORS = {"rekey_sessions": 40, "rekeys_completed": 40, "packets_sent_during_key_exchange": 50, "echo_replies_sent": 20,
+          "sessions_established": 100, "payloads_compared": 500, "tamper_sessions": 50, "tamper_disconnects_observed": 50,
           "ident_cut_sessions": 100, "configs_covered": 5, "segments_delivered": 5000}
 READY = True
 
 KNOWN_BANNER = "ssh-banner-line-own-segment"
 KNOWN_GUARD = "ssh-version-guard-counts-bytes-after-version-line"
 KNOWN_PARTIAL = "ssh-partial-version-line-after-banner-containing-marker"
+KNOWN_NEWKEYS = "ssh-rekey-control-message-after-own-newkeys-uses-old-keys"
 
 _cache = {}
 
@@ -86,12 +99,18 @@ def env():
         def __init__(self):
             self.got = []
             self.started = 0
+            self.replies = []  # scripted re-entrant application: packets sent from inside packetReceived
+            self.sent_log = None
 
         def serviceStarted(self):
             self.started += 1
 
         def packetReceived(self, num, payload):
             self.got.append((num, payload))
+            if self.replies:
+                reply = self.replies.pop(0)
+                self.sent_log.append(reply)
+                self.transport.sendPacket(*reply)
 
     class Fac(factory.SSHFactory):
         services = {b"ssh-userauth": Rec}
@@ -107,8 +126,9 @@ def env():
             return defer.succeed(True)
 
         def connectionSecure(self):
-            self.rec = Rec()
-            self.requestService(self.rec)
+            if self.rec is None:  # called again after every re-key; the application requests its service once
+                self.rec = Rec()
+                self.requestService(self.rec)
 
     hk = {b"ssh-ed25519": keys.Key(ed25519.Ed25519PrivateKey.generate()),
           b"ssh-rsa": keys.Key(rsa.generate_private_key(65537, 2048)),
@@ -385,6 +405,110 @@ def delivery_case(ctx, rng, cfg, kex, keytype, label):
     return sess
 
 
+def rekey_case(ctx, rng, cfg, kex, keytype, label, extra_cfgs):
+    """Payload sequences that continue across one or two re-keys (a second KEXINIT exchange started by
+    either side or both at once, to another cipher/MAC/compression incl. `none`), with packets sent -
+    and therefore queued - while the exchange is in progress, and a re-entrant application that sends
+    packets from inside packetReceived.  Same oracle: per direction received == sent, in call order."""
+    e = env()
+    allc = list(itertools.product(e["ciphers"], e["macs"], e["comps"])) + extra_cfgs
+    mode = rng.choice(("whole", "rand", "rand"))
+    split = splitter(rng, mode)
+    nrekeys = rng.choice((1, 1, 2))
+    plan = [(rng.choice(allc), rng.choice(("c", "s", "both"))) for _ in range(nrekeys)]
+    sess = Session(cfg, kex, keytype)
+    sent = {"c": [], "s": []}
+    witness = {"family": "rekey", "config": cfg, "kex": kex, "hostkey": keytype, "segmentation": mode,
+               "rekeys(new config, initiator)": plan, "case": label}
+    ctx.evaluated()
+    ctx.count("rekey_sessions")
+
+    ctl_during_kex = rng.random() < 0.25  # IGNORE / DEBUG (allowed during key exchange) also while re-keying
+    hazard = []
+
+    def send(side, n, big=False, during=False):
+        for it in gen_items(rng, n, big):
+            if it[0] == "pkt":
+                sent[side].append((it[1], it[2]))
+            elif during:
+                if not ctl_during_kex:
+                    continue
+                t = sess.proto[side]
+                # (classification only) own NEWKEYS already sent, the peer's not yet received
+                if (t._keyExchangeState != t._KEY_EXCHANGE_NONE and t.nextEncryptions is not t.currentEncryptions
+                        and getattr(t.nextEncryptions, "encBlockSize", 0)):
+                    hazard.append((side, it[0]))
+                ctx.count("control_messages_during_key_exchange")
+            send_items(rng, sess, side, [it])
+
+    def one_round():
+        for src in "sc":
+            data = sess.take(src)
+            for piece in split(data) if data else ():
+                if not sess.feed(sess.other(src), piece):
+                    break
+
+    try:
+        sess.pump(lambda d: [d])
+        if not sess.established():
+            report_failure(ctx, sess, "delivery-session-not-established", "key exchange / service start did not complete", dict(witness))
+            return
+        ctx.count("sessions_established")
+        for side in "sc":
+            svc = sess.service(side)
+            svc.sent_log = sent[side]
+            if rng.random() < 0.4:
+                svc.replies = [(rng.randint(50, 255), gen_payload(rng, False)) for _ in range(rng.randint(1, 4))]
+                ctx.count("echo_scripts")
+        nreplies0 = sum(len(sess.service(x).replies) for x in "sc")
+        for side in rng.sample(["s", "c"], 2):
+            send(side, rng.randint(0, 3), True)
+        if rng.random() < 0.5:
+            one_round()
+        for cfg2, who in plan:
+            for t in (sess.s, sess.c):
+                t.supportedCiphers, t.supportedMACs, t.supportedCompressions = [cfg2[0]], [cfg2[1]], [cfg2[2]]
+            for side in ("c", "s") if who == "both" else (who,):
+                sess.proto[side].sendKexInit()
+            ctx.count("rekeys_started")
+            ctx.seen("rekey_targets", b"/".join(cfg2).decode())
+            for _ in range(rng.randint(1, 3)):
+                for side in rng.sample(["s", "c"], 2):
+                    n0 = len(sent[side])
+                    send(side, rng.randint(0, 3), during=True)
+                    ctx.count("packets_sent_during_key_exchange", len(sent[side]) - n0)
+                one_round()
+            sess.pump(split)
+            if sess.exc or sess.tr["s"].disconnecting or sess.tr["c"].disconnecting:
+                break
+            ok = all(t.currentEncryptions.outCipType == cfg2[0] and t.currentEncryptions.outMACType == cfg2[1] for t in (sess.s, sess.c))
+            ctx.count("rekeys_completed" if ok else "rekeys_not_switched")
+            for side in rng.sample(["s", "c"], 2):
+                send(side, rng.randint(1, 3), True)
+            sess.pump(split)
+        ctx.count("segments_delivered", sess.segments)
+        ctx.count("echo_replies_sent", nreplies0 - sum(len(sess.service(x).replies) for x in "sc"))
+        ctx.distinct(("rekey", cfg, kex, repr(plan), mode, repr({k: [(n, len(p)) for n, p in v] for k, v in sent.items()})))
+        for side in "sc":
+            got = sess.service(sess.other(side)).got
+            ctx.count("payloads_compared", len(sent[side]))
+            if got != sent[side] or sess.exc or sess.tr["s"].disconnecting or sess.tr["c"].disconnecting:
+                firstbad = next((k for k, (a, b) in enumerate(zip(sent[side], got)) if a != b), min(len(sent[side]), len(got)))
+                if hazard:
+                    ctx.count("known_" + KNOWN_NEWKEYS)
+                    ctx.violation(KNOWN_NEWKEYS, "a message allowed during key exchange (IGNORE/DEBUG) sent after the side's own NEWKEYS but before the peer's "
+                                  "NEWKEYS arrived is encrypted with the old keys; the peer, already switched, cannot decrypt it",
+                                  dict(witness, control_messages_in_window=hazard, sender=side, n_sent=len(sent[side]), n_received=len(got),
+                                       disconnecting={k: v.disconnecting for k, v in sess.tr.items()}))
+                    return
+                report_failure(ctx, sess, "rekey-payload-mismatch", "payloads sent before / during / after a re-key were not delivered exactly, in order",
+                               dict(witness, sender=side, sent=[(n, len(p)) for n, p in sent[side]], n_received=len(got), first_difference_index=firstbad,
+                                    exception=sess.exc, disconnecting={k: v.disconnecting for k, v in sess.tr.items()}))
+                return
+    finally:
+        sess.close()
+
+
 def ident_case(ctx, rng, nlines, label, long=False):
     """Every 1-cut of the server's identification region (banner lines + version line), fast kex."""
     e = env()
@@ -550,6 +674,15 @@ def run(ctx):
                 delivery_case(ctx, rng, cfg, kex, keytype, "cfg%d/del%d" % (ci, k))
             else:
                 tamper_case(ctx, rng, cfg, kex, keytype, "cfg%d/tam%d" % (ci, k))
+    # re-keying, packets queued during the exchange, re-entrant senders, `none` cipher / MAC targets
+    extra = [(b"none", e["macs"][0], b"none"), (e["ciphers"][0], b"none", b"zlib"), (b"none", b"none", b"none")]
+    n_rk = ctx.size(8, 60)
+    for ci, cfg in cfgs + [(1000 + j, c) for j, c in enumerate(extra)]:
+        for k in range(n_rk):
+            if not ctx.owns(ci * 7919 + k):
+                continue
+            rng = ctx.case_rng("rekey", ci, k)
+            rekey_case(ctx, rng, cfg, e["kexes"][(ci + k) % len(e["kexes"])], keytypes[k % len(keytypes)], "cfg%d/rekey%d" % (ci, k), extra)
     ctx.count("configs_covered", len(cfgs) if ctx.shard == 0 else 0)
     # every offset of one packet, for the first CTR and the first CBC configuration of this run
     picked = []
@@ -591,6 +724,13 @@ def replay(ctx, w):
         rng = ctx.case_rng("cfg", ci, k)
         kex, keytype = e["kexes"][(ci + k) % len(e["kexes"])], keytypes[(ci + k // 2) % len(keytypes)]
         (delivery_case if m.group(2) == "del" else tamper_case)(ctx, rng, allc[ci], kex, keytype, label)
+        return
+    m = re.match(r"cfg(\d+)/rekey(\d+)$", label)
+    if m:
+        ci, k = int(m.group(1)), int(m.group(2))
+        extra = [(b"none", e["macs"][0], b"none"), (e["ciphers"][0], b"none", b"zlib"), (b"none", b"none", b"none")]
+        cfg = extra[ci - 1000] if ci >= 1000 else allc[ci]
+        rekey_case(ctx, ctx.case_rng("rekey", ci, k), cfg, e["kexes"][(ci + k) % len(e["kexes"])], keytypes[k % len(keytypes)], label, extra)
         return
     m = re.match(r"cfg(\d+)/exhaustive-offset(\d+)$", label)
     if m:
